@@ -1036,7 +1036,18 @@ func init() {
 							return false
 						}
 						e.idp.mu.Unlock()
+						// ... and (server-side store, every other kind) while Redis refuses deletes at that moment (a replica that is
+						// read-only during a fail-over): the BROWSER is signed out all the same — the cookie's deletion does not wait
+						// for the store's answer.  (What a replay of the old ticket does then is a store fault on top: not judged here.)
+						delFails := redis && refreshOK && !grow && len(k.name)%2 == 0
+						if delFails {
+							e.redisFault = map[string]string{"DEL": "always"}
+						}
 						v := e.do(reqSpec{Target: "/app/x", Cookie: ck})
+						if delFails {
+							e.redisFault = nil
+							c.count("c14:validate-fault-while-deletes-fail")
+						}
 						resetIDP(e.idp)
 						e.idp.mu.Lock()
 						e.idp.refreshReturnsIDToken = true
@@ -1062,13 +1073,16 @@ func init() {
 							extended = len(e.do(reqSpec{Target: "/app/x", Cookie: bb.cookieHeader()}).Hits) > 0
 						}
 						for _, sc := range v.Cookies {
-							if isSessionCookieNameH(e.opts.Cookie.Name, sc.Name) && sc.MaxAge >= 0 && sc.Value != "" && !extended {
+							if isSessionCookieNameH(e.opts.Cookie.Name, sc.Name) && sc.MaxAge >= 0 && sc.Value != "" && !extended && !delFails {
 								extended = len(e.do(reqSpec{Target: "/app/x", Cookie: sc.Name + "=" + sc.Value}).Hits) > 0
 							}
 						}
+						if delFails {
+							e.mr.FlushAll()
+						}
 						if len(v.Hits) > 0 || extended {
 							c.violation("C14", "a stale session whose ID token does not verify was kept / extended because the key endpoint failed ("+k.name+") during re-validation",
-								map[string]interface{}{"keys_endpoint": k.name, "status": v.Status, "forwarded": len(v.Hits) > 0, "session_still_authenticates": extended,
+								map[string]interface{}{"keys_endpoint": k.name, "status": v.Status, "forwarded": len(v.Hits) > 0, "session_still_authenticates": extended, "redis_refused_deletes_during_the_request": delFails,
 									"refresh_before_validation": map[bool]string{false: "failed", true: "succeeded (new access token, no new ID token)"}[refreshOK], "refreshed_session_needs_split_cookies": grow, "cfg": fmt.Sprintf("%+v", cfg)})
 						}
 					}
@@ -1338,6 +1352,119 @@ func init() {
 			}
 			srv.Close()
 		}
-		c.close([]string{"c14:faulted", "c14:clean", "idpfault:reset", "idpfault:oversized", "claimfault:aud-number", "claimfault:alg-none", "c14:short-read", "c14:keycloak", "c14:sweep:prefix", "c14:sweep:idtoken-char", "c14:validate-status", "c14:validate-keys-fault"})
+		// ---- several instances: the refresh lock of a session is HELD ELSEWHERE (another instance is in the middle of its own call
+		// to the identity provider, which is slow, or died there).  A request that finds the lock taken waits and then goes through
+		// refresh / re-validation itself: it is never served on the stale, unvalidated session
+		{
+			u := defaultUser()
+			if e, err := newEnv(c, proxyCfg{Redis: true, RedisRealTime: true, CookieRefresh: time.Second, InjectRequest: defaultInject()}); err == nil {
+				for _, target := range []string{"/app/x", "/oauth2/auth"} {
+					s := e.sessionFor(u, 2*time.Hour)
+					past := time.Now().Add(-time.Hour)
+					s.ExpiresOn = &past
+					s.IDToken = ""                                                       // nothing about it validates any more …
+					s.RefreshToken = fmt.Sprintf("rt-revoked-%d", time.Now().UnixNano()) // … and the provider rejects its refresh token
+					ck := e.issueSessionCookie(s)
+					held := false
+					if other, err := e.proxy.sessionStore.Load(mustReq(e, ck)); err == nil && other != nil {
+						held = other.ObtainLock(context.Background(), 1200*time.Millisecond) == nil
+					}
+					t0 := time.Now()
+					v := e.do(reqSpec{Target: target, Cookie: ck})
+					c.casen("c14|lock-held-elsewhere|"+target, fmt.Sprintf("%d %v", v.Status, held))
+					if !held {
+						c.violation("HARNESS", "could not take the refresh lock the way another instance does", nil)
+						continue
+					}
+					c.count("c14:lock-held-elsewhere")
+					if len(v.Hits) > 0 || v.Status == 200 || v.Status == 202 {
+						c.violation("C14", "a request found its session's refresh lock held by another instance and was served on the session as stored — expired, not refreshed (the provider rejects its refresh token), not validated (nothing about it verifies)",
+							map[string]interface{}{"target": target, "status": v.Status, "answered_after": time.Since(t0).String(), "lock_held_elsewhere_for": "1.2s"})
+					}
+					e.mr.FlushAll()
+				}
+				e.close()
+			} else {
+				c.violation("HARNESS", "env: "+err.Error(), nil)
+			}
+			// ---- one user's refresh HANGS at the identity provider (slow beyond any timeout); requests of OTHER users, whose own refresh
+			// the provider answers at once, keep being handled (cookie store: no refresh lock is involved at all)
+			if e, err := newEnv(c, proxyCfg{CookieRefresh: time.Second, InjectRequest: defaultInject()}); err == nil {
+				mk := func(i int) string {
+					uu := idpUser{Sub: fmt.Sprintf("hang-user-%d", i), Email: fmt.Sprintf("hang%d@example.com", i), EmailVerified: true, Groups: []interface{}{"g"}, PreferredUser: fmt.Sprintf("hang%d", i)}
+					s := e.sessionFor(uu, 2*time.Hour)
+					s.RefreshToken = fmt.Sprintf("rt-hang-%d-%d", i, time.Now().UnixNano())
+					e.registerRT(s.RefreshToken, uu)
+					return e.issueSessionCookie(s)
+				}
+				slow, others := mk(0), []string{mk(1), mk(2), mk(3)}
+				var first atomic.Int64
+				release := make(chan struct{})
+				e.idp.mu.Lock()
+				e.idp.fault = func(ep string, n int, w http.ResponseWriter, r *http.Request) bool {
+					if ep == "/token" && first.Add(1) == 1 {
+						select {
+						case <-release:
+						case <-time.After(8 * time.Second):
+						}
+					}
+					return false
+				}
+				e.idp.mu.Unlock()
+				doneSlow := make(chan struct{})
+				go func() {
+					defer close(doneSlow)
+					req, _ := e.buildRequest(reqSpec{Target: "/app/slow", Cookie: slow})
+					e.proxy.ServeHTTP(httptest.NewRecorder(), req)
+				}()
+				for i := 0; i < 100 && first.Load() == 0; i++ {
+					time.Sleep(10 * time.Millisecond)
+				}
+				type res struct {
+					status int
+					took   time.Duration
+				}
+				out := make(chan res, len(others))
+				for i, ck := range others {
+					go func(i int, ck string) {
+						req, _ := e.buildRequest(reqSpec{Target: fmt.Sprintf("/app/other-%d", i), Cookie: ck})
+						rec := httptest.NewRecorder()
+						t0 := time.Now()
+						e.proxy.ServeHTTP(rec, req)
+						out <- res{rec.Code, time.Since(t0)}
+					}(i, ck)
+				}
+				answered := 0
+				deadline := time.After(5 * time.Second)
+			collect:
+				for answered < len(others) {
+					select {
+					case <-out:
+						answered++
+					case <-deadline:
+						break collect
+					}
+				}
+				hung := first.Load() > 0
+				close(release)
+				<-doneSlow
+				e.idp.mu.Lock()
+				e.idp.fault = nil
+				e.idp.mu.Unlock()
+				c.casen("c14|one-refresh-hangs", fmt.Sprintf("%d/%d", answered, len(others)))
+				c.count("c14:one-refresh-hangs")
+				if hung && answered < len(others) {
+					c.violation("C14", fmt.Sprintf("while ONE user's refresh hung at the identity provider, only %d of %d requests of other users (whose own refresh the provider answers at once) were answered within 5 s: the proxy stopped handling other requests", answered, len(others)),
+						map[string]interface{}{"store": "cookie", "hanging_call": "token endpoint, first refresh grant", "other_requests_answered_within_5s": answered})
+				}
+				for _, uu := range e.ups {
+					uu.take()
+				}
+				e.close()
+			} else {
+				c.violation("HARNESS", "env: "+err.Error(), nil)
+			}
+		}
+		c.close([]string{"c14:lock-held-elsewhere", "c14:one-refresh-hangs", "c14:faulted", "c14:clean", "idpfault:reset", "idpfault:oversized", "claimfault:aud-number", "claimfault:alg-none", "c14:short-read", "c14:keycloak", "c14:sweep:prefix", "c14:sweep:idtoken-char", "c14:validate-status", "c14:validate-keys-fault"})
 	})
 }
